@@ -226,7 +226,7 @@ func (e *Engine) intrinsic(fr *Frame, st *State, ins ssa.Instruction, fn *ssa.Fu
 				id := int(s.Args[0].Args[0].Val.Int64())
 				want := e.strLitList[id-1]
 				for k, tag := range e.typeTags {
-					if strings.HasSuffix(strings.ReplaceAll(k, "github.com/gobwas/ws/", ""), want) || k == want {
+					if strings.ReplaceAll(strings.ReplaceAll(k, "github.com/gobwas/ws/", ""), "github.com/gobwas/", "") == want || k == want {
 						return tb.Eq(tb.Acc(x, 0), tb.Int(int64(tag))), true
 					}
 				}
